@@ -214,7 +214,8 @@ class Frames(BaseFrame):
 
     @property
     def size(self, **kwargs):
-        return self.map_partitions(M.size, self, **kwargs)
+        # size is an attribute in pandas, not a method
+        return self.map_partitions(lambda x: x.size, self, **kwargs)
 
     def count(self, **kwargs):
         return self.map_partitions(M.count, self, **kwargs)
